@@ -164,6 +164,32 @@ pub fn run(ctx: &mut Ctx) {
             }
         }
         ctx.exhaustive_domains.push(format!("every byte value 0..255 in every enum-typed, bool, count and hand-written-codec position of every kind, mode {}", if compressed { "c" } else { "u" }));
+        // text that is valid UTF-8 but not ASCII in every text position that is parsed further (the version text of IS_VER goes
+        // through a number parser whose notion of "numeric" is Unicode's): multi-byte numerics, letters, symbols, at every offset
+        {
+            let utf8: Vec<&str> = vec!["\u{b2}", "\u{663}", "\u{bd}", "\u{ff15}", "\u{e9}", "\u{2167}", "\u{1f600}", "\u{3b1}"];
+            for pre in ["", "0", "0.", "0.7", "7", ".", "0.7E", "0.7E1"] {
+                for u in &utf8 {
+                    for post in ["", "E", "1", ".5", "A1"] {
+                        let t = format!("{}{}{}", pre, u, post);
+                        if t.len() > 8 { continue; }
+                        let mut v = t.as_bytes().to_vec(); v.resize(8, 0);
+                        let mut f = vec![size_byte(compressed, 20), 2, 1, 0];
+                        f.extend_from_slice(&v);
+                        f.extend_from_slice(b"S3\0\0\0\0");
+                        f.extend_from_slice(&[9, 0]);
+                        hostile_case(ctx, &ls, compressed, &f, "utf8-text");
+                    }
+                }
+            }
+            // … and in the ordinary codepage text fields of a few kinds (MST, NCN, MSO name part)
+            for u in &utf8 {
+                let mut f = vec![size_byte(compressed, 68), 13, 0, 0];
+                let mut m = format!("a{}b^C{}", u, u).into_bytes(); m.resize(64, 0);
+                f.extend_from_slice(&m);
+                hostile_case(ctx, &ls, compressed, &f, "utf8-text");
+            }
+        }
         // random buffers
         for _ in 0..(if quick { 4000 } else { 400_000 }) {
             let n = ctx.rng.below(40) as usize;
